@@ -68,7 +68,7 @@ func (c12) FaultKinds() []string {
 	return []string{"F4_scribble_input_config", "F4_scribble_config_result", "F4_scribble_kept_config_result", "F4_flip_scalars", "F4_handler_scribbles_request_headers", "F4_handler_scribbles_response_headers", "F4_handler_mutates_header_maps", "F4_caller_scribbles_request_after_return", "F4_passed_config_edited_in_place_and_reused", "F6_duplicate_request", "F10_request_crashed_at_a_seam", "F11_head_serialised_late"}
 }
 func (c12) Probes() []string {
-	return []string{"shared_config_value", "handler_saw_acao_alias", "alien_request", "three_middlewares", "suite_compared", "reconfigure_again_same_config", "reconfigure_to_other_config_vs_fresh", "one_element_of_the_passed_config_edited_in_place"}
+	return []string{"shared_config_value", "handler_saw_acao_alias", "alien_request", "three_middlewares", "suite_compared", "reconfigure_again_same_config", "reconfigure_to_other_config_vs_fresh", "one_element_of_the_passed_config_edited_in_place", "callers_config_memory_checked"}
 }
 
 func (c12) Gen(r *R, tier string) any {
@@ -118,10 +118,14 @@ func tweakCfg(c Cfg, v int) Cfg {
 		if len(idx) == 0 {
 			return false
 		}
-		l[idx[(v/4)%len(idx)]] = val
+		l[idx[(v/5)%len(idx)]] = val
 		return true
 	}
-	switch v % 4 {
+	switch v % 5 {
+	case 4:
+		if !repl(d.ResponseHeaders, "X-Tweaked-Exposed") {
+			repl(d.Origins, "https://tweaked.example.org")
+		}
 	case 1:
 		repl(d.Origins, "https://tweaked.example.org")
 	case 2:
@@ -134,6 +138,29 @@ func tweakCfg(c Cfg, v int) Cfg {
 		}
 	}
 	return d
+}
+
+// memFP fingerprints everything a caller can see of a Config it holds: the lists
+// including their spare capacity, and the scalars.
+func memFP(c *cors.Config) string {
+	if c == nil {
+		return "nil"
+	}
+	full := func(l []string) []string { return l[:cap(l)] }
+	return fmt.Sprintf("%q|%d %q|%d %q|%d %q|%d %v %d %+v", full(c.Origins), len(c.Origins), full(c.Methods), len(c.Methods), full(c.RequestHeaders), len(c.RequestHeaders),
+		full(c.ResponseHeaders), len(c.ResponseHeaders), c.Credentialed, c.MaxAgeInSeconds, c.ExtraConfig)
+}
+
+// callerMemoryIntact wraps a call that is handed pc: the library may read the
+// Config it is passed, never write to it (lists, spare capacity, scalars) - the
+// "caller-side mutation" of the property must be the caller's.
+func callerMemoryIntact(pc *cors.Config, what string, call func()) *Violation {
+	before := memFP(pc)
+	call()
+	if after := memFP(pc); after != before {
+		return &Violation{Class: "library-wrote-into-callers-config", Key: what, Detail: fmt.Sprintf("%s: the Config value the caller passed was %s before the call and is %s after it", what, before, after)}
+	}
+	return nil
 }
 
 const junk = "MUTATED-BY-CALLER"
@@ -276,17 +303,24 @@ func (c12) Exec(plan any, c *Ctx) *Violation {
 			x.passed = &cc
 		}
 		var err error
+		var memV *Violation
 		pan := catch(func() {
-			if spec.ViaReconf {
-				x.m = new(cors.Middleware)
-				err = x.m.Reconfigure(x.passed)
-			} else {
-				x.m, err = cors.NewMiddleware(*x.passed) // copies the struct, shares the slices
-			}
+			memV = callerMemoryIntact(x.passed, "build", func() {
+				if spec.ViaReconf {
+					x.m = new(cors.Middleware)
+					err = x.m.Reconfigure(x.passed)
+				} else {
+					x.m, err = cors.NewMiddleware(*x.passed) // copies the struct, shares the slices
+				}
+			})
 		})
 		if pan != "" {
 			return &Violation{Class: "panic", Key: "build", Detail: pan}
 		}
+		if memV != nil {
+			return memV
+		}
+		c.hit("callers_config_memory_checked")
 		if err != nil {
 			c.hit("generator_rejected")
 			return nil
@@ -336,7 +370,7 @@ func (c12) Exec(plan any, c *Ctx) *Violation {
 			dbg = 1
 		}
 		if st.Kind == "edit_passed_and_reconfigure" {
-			tw = st.Val % 4
+			tw = st.Val % 5
 		}
 		if refs[[3]int{j, dbg, tw}] != nil {
 			continue
@@ -497,24 +531,24 @@ func (c12) Exec(plan any, c *Ctx) *Violation {
 				if st.Alien {
 					j = x.cfgIdx % len(p.Cfgs) // the configuration installed now, with one element changed: the smallest edit
 				}
-				target := tweakCfg(p.Cfgs[j], st.Val%4).Config()
+				target := tweakCfg(p.Cfgs[j], st.Val%5).Config()
 				dbg := p.MWs[st.MW%len(mws)].Debug
-				rf := refFor(j, dbg, st.Val%4)
+				rf := refFor(j, dbg, st.Val%5)
 				if rf == nil || !rf.ok {
 					abandon = true
 					return
 				}
 				pc := x.passed
-				pc.Origins = append(pc.Origins[:0], target.Origins...)
-				pc.Methods = append(pc.Methods[:0], target.Methods...)
-				pc.RequestHeaders = append(pc.RequestHeaders[:0], target.RequestHeaders...)
-				pc.ResponseHeaders = append(pc.ResponseHeaders[:0], target.ResponseHeaders...)
+				pc.Origins = editInPlace(pc.Origins, target.Origins)
+				pc.Methods = editInPlace(pc.Methods, target.Methods)
+				pc.RequestHeaders = editInPlace(pc.RequestHeaders, target.RequestHeaders)
+				pc.ResponseHeaders = editInPlace(pc.ResponseHeaders, target.ResponseHeaders)
 				pc.Credentialed, pc.MaxAgeInSeconds, pc.ExtraConfig = target.Credentialed, target.MaxAgeInSeconds, target.ExtraConfig
 				if err := x.m.Reconfigure(pc); err != nil {
 					panic("a configuration NewMiddleware accepts was rejected by Reconfigure: " + err.Error())
 				}
 				x.m.SetDebug(dbg)
-				x.cfgIdx, x.tw = j, st.Val%4
+				x.cfgIdx, x.tw = j, st.Val%5
 				x.suite, x.base, x.baseCfg = rf.suite, rf.base, rf.cfg
 				c.hit("F4_passed_config_edited_in_place_and_reused")
 				if st.Alien && x.tw != 0 {
